@@ -19,8 +19,8 @@ Lemma file_urls_parsed :
 Proof. split; vm_compute; reflexivity. Qed.
 
 Definition ft_ops : list psm_op := [PPush (B "b"); PPush (B "C|"); PPop].
-(* push("etc"), push(""), push("C|") ; clear ; push("1:") ; push("c<TAB>:") on the root path *)
-Definition fr_ops : list psm_op := [PExtend [B "etc"; []; B "C|"]; PClear; PPush (B "1:"); PPush [99; 9; 37]].
+(* extend(["etc", "", "C|"]) ; clear ; push("C<TAB>:") ; push("c<TAB>%") on the root path *)
+Definition fr_ops : list psm_op := [PExtend [B "etc"; []; B "C|"]; PClear; PPush [67; 9; 58]; PPush [99; 9; 37]].
 
 Ltac usv := repeat constructor; unfold is_usv; lia.
 
@@ -40,16 +40,19 @@ Proof.
   split; [usv|]. repeat split; vm_compute; reflexivity.
 Qed.
 
-(* the root path: segments that are not drive-letter-like *)
+(* the root path: drive-letter-like segments are fine unless a TAB / LF / CR splits them behind "C:" or they are "C|" *)
 Lemma file_root_session_example :
   wf_b fr_url = true /\ byte_eqb (ser fr_url) (scheme_end fr_url + 1) 47 = true /\ st_of fr_url = STFile
   /\ path_bytes fr_url = B "/" /\ file_path_ok (path_bytes fr_url) = true
   /\ file_session_ok (path_bytes fr_url) fr_ops = true /\ Forall psm_op_usv fr_ops
-  /\ path_segments_session true fr_url fr_ops = Some (with_path fr_url (B "/1:/c%25"), SOk)
-  /\ session_text STFile (path_bytes fr_url) fr_ops = B "/1:/c%25"
+  /\ path_segments_session true fr_url fr_ops = Some (with_path fr_url (B "/C:/c%25"), SOk)
+  /\ session_text STFile (path_bytes fr_url) fr_ops = B "/C:/c%25"
   /\ session_text STFile (path_bytes fr_url) [PExtend [B "etc"; []; B "C|"]] = B "/etc//C|"
-  /\ root_seg_ok (B "etc") = true /\ root_seg_ok [] = true /\ root_seg_ok (B "1:") = true
-  /\ root_seg_ok (B "C|") = false /\ root_seg_ok (B "c:x") = false /\ root_seg_ok [67; 9; 58] = false.
+  /\ root_seg_ok (B "etc") = true /\ root_seg_ok [] = true /\ root_seg_ok (B "C:") = true /\ root_seg_ok (B "c:x") = true
+  /\ root_seg_ok [67; 9; 58] = true /\ root_seg_ok [67; 58; 9] = true /\ root_seg_ok (B "c|x") = true
+  /\ root_seg_ok (B "C|") = false /\ root_seg_ok [67; 9; 124] = false /\ root_seg_ok [67; 58; 9; 120] = false
+  /\ path_segments_session true fr_url [PPush (B "c:x")] = Some (with_path fr_url (B "/c:x"), SOk)
+  /\ path_segments_session true fr_url [PPush [67; 58; 9]] = Some (with_path fr_url (B "/C:"), SOk).
 Proof.
   split; [vm_compute; reflexivity|]. split; [vm_compute; reflexivity|]. split; [vm_compute; reflexivity|].
   split; [vm_compute; reflexivity|]. split; [vm_compute; reflexivity|]. split; [vm_compute; reflexivity|].
